@@ -484,6 +484,17 @@ func (e *Exec) indexVal(st *State, base, idx Val, pos token.Pos, check bool) Val
 			e.sideOblige(st, "index", And(Le(IntLit(0), idx.T), Lt(idx.T, SlcLen(base.T))), pos)
 		}
 		v := Val{T: Select(SlcArr(base.T), idx.T), GT: bt.Elem()}
+		// an element that can itself hold a slice (a slice, or an interface boxing one) leads to a backing array
+		// reachable from the same parameter: in-place writes through it are writes to caller-visible state
+		if len(base.Orig) > 0 {
+			switch bt.Elem().Underlying().(type) {
+			case *types.Slice, *types.Interface:
+				v.Orig = map[string]bool{}
+				for p := range base.Orig {
+					v.Orig[strings.TrimSuffix(p, "[*]")+"[*]"] = true
+				}
+			}
+		}
 		e.typeFactsGlobal(v)
 		return v
 	case *types.Array:
@@ -787,6 +798,7 @@ func (e *Exec) box(st *State, v Val, iface types.Type) Val {
 		return Val{T: v.T, GT: iface}
 	}
 	box, unbox, tag := e.boxFuncs(v.GT)
+	e.syncImplFacts()
 	b := App(SInt, box, v.T)
 	e.sc.Assert(Eq(T(v.T.Sort, fmt.Sprintf("(%s %s)", unbox, b.S)), v.T))
 	e.sc.Assert(Eq(App(SInt, e.dynTypeFn(), b), IntLit(int64(tag))))
@@ -800,9 +812,15 @@ func (e *Exec) hasDynType(st *State, v Val, t types.Type) Term {
 		if types.Identical(v.GT, t) {
 			return Not(Eq(v.T, IntLit(0)))
 		}
-		r := e.sc.Fresh("implements", SBool)
-		e.note("interface-to-interface type assertion is unconstrained")
-		return And(Not(Eq(v.T, IntLit(0))), r)
+		// a function of the dynamic type; its value is stated for every concrete type seen (method sets are static)
+		key := typeKey(t)
+		if e.ifaceAsked == nil {
+			e.ifaceAsked = map[string]types.Type{}
+		}
+		e.ifaceAsked[key] = t
+		fn := e.sc.Fun("implements:"+key, []string{SInt}, SBool)
+		e.syncImplFacts()
+		return And(Not(Eq(v.T, IntLit(0))), App(SBool, fn, App(SInt, e.dynTypeFn(), v.T)))
 	}
 	tag := e.sr.typeTag(t)
 	return And(Not(Eq(v.T, IntLit(0))), Eq(App(SInt, e.dynTypeFn(), v.T), IntLit(int64(tag))))
@@ -810,11 +828,14 @@ func (e *Exec) hasDynType(st *State, v Val, t types.Type) Term {
 
 func (e *Exec) unbox(st *State, v Val, t types.Type) Val {
 	if _, ok := t.Underlying().(*types.Interface); ok {
-		return Val{T: v.T, GT: t}
+		return Val{T: v.T, GT: t, Orig: v.Orig}
 	}
 	_, unbox, _ := e.boxFuncs(t)
 	s := e.sr.sortOf(t)
 	r := Val{T: T(s, fmt.Sprintf("(%s %s)", unbox, v.T.S)), GT: t}
+	if isSlcSort(s) {
+		r.Orig = v.Orig // a slice taken out of an interface shares its backing array with the boxed value
+	}
 	e.typeFactsGlobal(r)
 	return r
 }
@@ -1020,4 +1041,43 @@ func (e *Exec) ghostEvent(st *State, kind string, args ...Val) {
 
 func (e *Exec) declEvent() {
 	e.sc.Decl("sort:Event", "(declare-datatypes ((Event 0)) (((mk_event (ev_kind String) (ev_a String) (ev_b String)))))")
+}
+
+// syncImplFacts states, for every interface asked about in an interface-to-interface assertion and every
+// concrete type boxed so far, whether the type implements the interface (decided by go/types).
+func (e *Exec) syncImplFacts() {
+	if len(e.ifaceAsked) == 0 {
+		return
+	}
+	if e.implDone == nil {
+		e.implDone = map[string]bool{}
+	}
+	for _, key := range sortedKeys(e.ifaceAsked) {
+		it := e.ifaceAsked[key]
+		iface, ok := it.Underlying().(*types.Interface)
+		if !ok {
+			continue
+		}
+		fn := e.sc.Fun("implements:"+key, []string{SInt}, SBool)
+		for tag := 1; tag <= len(e.sr.tagTypes); tag++ {
+			ct := e.sr.tagTypes[tag]
+			if ct == nil {
+				continue
+			}
+			k := fmt.Sprintf("%s/%d", key, tag)
+			if e.implDone[k] {
+				continue
+			}
+			e.implDone[k] = true
+			if _, isI := ct.Underlying().(*types.Interface); isI {
+				continue
+			}
+			f := App(SBool, fn, IntLit(int64(tag)))
+			if types.Implements(ct, iface) {
+				e.sc.Assert(f)
+			} else {
+				e.sc.Assert(Not(f))
+			}
+		}
+	}
 }
